@@ -957,6 +957,10 @@ def stable_origin(f, o, depth=0, _seen=None):
             return stable_origin(f, f.origin_op(t["args"][0]), depth + 1, _seen)
         if NORMALISE_ELEM and ELEM_ACCESS.search(c):
             return "elem"          # an element of a collection, however it is fetched (v[i], v.get(i), v.first() ...)
+        if NORMALISE_ELEM and c.endswith("Option::<T>::unwrap_or") and len(t["args"]) == 2 and "const" in t["args"][1]:
+            # `x.unwrap_or(c)` is `match x { Some(v) => v, None => c }`
+            parts = sorted([stable_origin(f, f.origin_op(t["args"][0]), depth + 2, _seen) + "@Some.0", str(t["args"][1].get("const"))])
+            return "var{%s}" % "|".join(parts)
         return "call:" + (t.get("resolved") or t.get("callee") or "indirect")
     if k == "const":
         return o[1].get("const", "const")
